@@ -900,6 +900,29 @@ theorem impl_step_projects (isPA : C → Bool) (x : Impl K C V) (op : IOp K C V)
     refine ⟨[], by simp, ?_⟩
     cases t <;> simp [Impl.step, Impl.setMaxSize, Impl.typed, map_run_nil]
 
+theorem Cache.run_append (c : Cache K C V) (a b : List (Op K C V)) : c.run (a ++ b) = (c.run a).run b := by
+  induction a generalizing c with
+  | nil => rfl
+  | cons op ops ih => exact ih (c.step op)
+
+/-- **Projection of whole histories.** For every sequence of calls on `XdsCacheImpl` and every typed cache
+    there is a sequence of single-cache operations (at most one per call) that produces that cache's
+    state: the four caches are four independent instances of the single-cache model. -/
+theorem impl_run_projects (isPA : C → Bool) (x : Impl K C V) (iops : List (IOp K C V)) (t : Ty) :
+    ∃ ops : List (Op K C V), ops.length ≤ iops.length ∧
+      (Impl.run isPA x iops).typed t = (x.typed t).map (fun c => c.run ops) := by
+  induction iops generalizing x with
+  | nil => exact ⟨[], Nat.le_refl _, (map_run_nil _).symm⟩
+  | cons op rest ih =>
+    obtain ⟨o1, h1, e1⟩ := impl_step_projects isPA x op t
+    obtain ⟨o2, h2, e2⟩ := ih (Impl.step isPA x op)
+    refine ⟨o1 ++ o2, by simp only [List.length_append, List.length_cons]; omega, ?_⟩
+    simp only [Impl.run]
+    rw [e2, e1]
+    cases x.typed t with
+    | none => rfl
+    | some c => simp [Cache.run_append]
+
 /-- the representation invariant holds in every typed cache of every reachable `XdsCacheImpl` state -/
 def ImplInv (x : Impl K C V) : Prop := ∀ t c, x.typed t = some c → Inv c
 
